@@ -140,3 +140,493 @@ fn proto_table_kf() {
     kani::assume(n == 0 || n == 1 || n == 144);
     assert!(iana_ok(n, ProtocolTypes::from(n)));
 }
+
+/// C03: complete V7 packet, count <= 2 symbolic.
+#[kani::proof]
+#[kani::stub(core::fmt::write, no_fmt)]
+fn v7_layout() {
+    const N: usize = H + 52 * 2 + 3;
+    let b: [u8; N] = kani::any();
+    let count = be16(&b, 0);
+    kani::assume(count <= 2);
+    match V7::parse(&b) {
+        Ok((rem, p)) => {
+            let used = H + 52 * count as usize;
+            assert!(rem.len() == N - used);
+            assert!(p.header.version == 7);
+            assert!(p.header.count == count);
+            assert!(p.header.sys_up_time == be32(&b, 2));
+            assert!(p.header.unix_secs == be32(&b, 6));
+            assert!(p.header.unix_nsecs == be32(&b, 10));
+            assert!(p.header.flow_sequence == be32(&b, 14));
+            assert!(p.header.reserved == be32(&b, 18));
+            assert!(p.flowsets.len() == count as usize);
+            if count >= 1 {
+                v7_record_asserts!(&p.flowsets[0], &b, H);
+            }
+            if count >= 2 {
+                v7_record_asserts!(&p.flowsets[1], &b, H + 52);
+            }
+            kani::cover!(count == 2);
+            core::mem::forget(p);
+        }
+        Err(e) => {
+            assert!(false);
+            core::mem::forget(e);
+        }
+    }
+}
+
+/// C03: the protocol name attached to a decoded V5/V7 record is ProtocolTypes::from(number)
+/// (whose table is decided separately by proto_table / proto_table_kf).
+#[kani::proof]
+#[kani::stub(core::fmt::write, no_fmt)]
+fn v5_v7_proto_name() {
+    let b5: [u8; H + 48] = kani::any();
+    let b7: [u8; H + 52] = kani::any();
+    kani::assume(be16(&b5, 0) == 1 && be16(&b7, 0) == 1);
+    match V5::parse(&b5) {
+        Ok((_, p)) => {
+            assert!(p.flowsets[0].protocol_type == ProtocolTypes::from(b5[H + 38]));
+            core::mem::forget(p);
+        }
+        Err(e) => {
+            assert!(false);
+            core::mem::forget(e);
+        }
+    }
+    match V7::parse(&b7) {
+        Ok((_, p)) => {
+            assert!(p.flowsets[0].protocol_type == ProtocolTypes::from(b7[H + 38]));
+            core::mem::forget(p);
+        }
+        Err(e) => {
+            assert!(false);
+            core::mem::forget(e);
+        }
+    }
+}
+
+/// C03/C14: every cut point. A buffer shorter than 24+48*count is an error, never a
+/// packet with fewer records; a complete one is accepted.
+#[kani::proof]
+#[kani::stub(core::fmt::write, no_fmt)]
+fn v5_trunc() {
+    const N: usize = H + 48 + 4;
+    let b: [u8; N] = kani::any();
+    let n: usize = kani::any();
+    kani::assume(n <= N);
+    let r = V5::parse(&b[..n]);
+    if n >= 2 {
+        let count = be16(&b, 0) as usize;
+        let need = H + 48 * count;
+        match &r {
+            Ok((rem, p)) => {
+                assert!(n >= need);
+                assert!(p.flowsets.len() == count);
+                assert!(rem.len() == n - need);
+            }
+            Err(_) => assert!(n < need),
+        }
+        kani::cover!(r.is_ok() && count == 1);
+        kani::cover!(r.is_err() && count == 1 && n == need - 1);
+        kani::cover!(r.is_err() && count == 2);
+    } else {
+        assert!(r.is_err());
+    }
+    core::mem::forget(r);
+}
+
+#[kani::proof]
+#[kani::stub(core::fmt::write, no_fmt)]
+fn v7_trunc() {
+    const N: usize = H + 52 + 4;
+    let b: [u8; N] = kani::any();
+    let n: usize = kani::any();
+    kani::assume(n <= N);
+    let r = V7::parse(&b[..n]);
+    if n >= 2 {
+        let count = be16(&b, 0) as usize;
+        let need = H + 52 * count;
+        match &r {
+            Ok((rem, p)) => {
+                assert!(n >= need);
+                assert!(p.flowsets.len() == count);
+                assert!(rem.len() == n - need);
+            }
+            Err(_) => assert!(n < need),
+        }
+        kani::cover!(r.is_ok() && count == 1);
+        kani::cover!(r.is_err() && count == 1 && n == need - 1);
+        kani::cover!(r.is_err() && count == 2);
+    } else {
+        assert!(r.is_err());
+    }
+    core::mem::forget(r);
+}
+
+/// C08 (first clause): to_be_bytes(parse(b)) == version || b[..consumed].  The record count
+/// is *written* into the buffer (one harness per count) so that every Vec length inside
+/// to_be_bytes is a constant; all other bytes are symbolic.
+macro_rules! reexport {
+    ($name:ident, $ty:ident, $rec:expr, $ver:expr, $count:expr) => {
+        #[kani::proof]
+        #[kani::stub(core::fmt::write, no_fmt)]
+        fn $name() {
+            const N: usize = H + $rec * $count + 1;
+            let mut b: [u8; N] = kani::any();
+            b[0] = 0;
+            b[1] = $count as u8;
+            match $ty::parse(&b) {
+                Ok((rem, p)) => {
+                    let used = H + $rec * $count;
+                    assert!(rem.len() == 1);
+                    let out = p.to_be_bytes();
+                    assert!(out.len() == used + 2);
+                    assert!(out[0] == 0 && out[1] == $ver);
+                    let i: usize = kani::any();
+                    if i < used {
+                        assert!(out[i + 2] == b[i]);
+                    }
+                    kani::cover!(i == used - 1);
+                    core::mem::forget(out);
+                    core::mem::forget(p);
+                }
+                Err(e) => {
+                    assert!(false);
+                    core::mem::forget(e);
+                }
+            }
+        }
+    };
+}
+reexport!(v5_reexport_0, V5, 48, 5, 0);
+reexport!(v5_reexport_1, V5, 48, 5, 1);
+reexport!(v5_reexport_2, V5, 48, 5, 2);
+reexport!(v7_reexport_0, V7, 52, 7, 0);
+reexport!(v7_reexport_1, V7, 52, 7, 1);
+reexport!(v7_reexport_2, V7, 52, 7, 2);
+
+fn any_v5_record() -> v5::FlowSet {
+    let pn: u8 = kani::any();
+    v5::FlowSet {
+        src_addr: std::net::Ipv4Addr::from(kani::any::<u32>()),
+        dst_addr: std::net::Ipv4Addr::from(kani::any::<u32>()),
+        next_hop: std::net::Ipv4Addr::from(kani::any::<u32>()),
+        input: kani::any(),
+        output: kani::any(),
+        d_pkts: kani::any(),
+        d_octets: kani::any(),
+        first: kani::any(),
+        last: kani::any(),
+        src_port: kani::any(),
+        dst_port: kani::any(),
+        pad1: kani::any(),
+        tcp_flags: kani::any(),
+        protocol_number: pn,
+        protocol_type: ProtocolTypes::from(pn),
+        tos: kani::any(),
+        src_as: kani::any(),
+        dst_as: kani::any(),
+        src_mask: kani::any(),
+        dst_mask: kani::any(),
+        pad2: kani::any(),
+    }
+}
+
+fn any_v7_record() -> v7::FlowSet {
+    let pn: u8 = kani::any();
+    v7::FlowSet {
+        src_addr: std::net::Ipv4Addr::from(kani::any::<u32>()),
+        dst_addr: std::net::Ipv4Addr::from(kani::any::<u32>()),
+        next_hop: std::net::Ipv4Addr::from(kani::any::<u32>()),
+        input: kani::any(),
+        output: kani::any(),
+        d_pkts: kani::any(),
+        d_octets: kani::any(),
+        first: kani::any(),
+        last: kani::any(),
+        src_port: kani::any(),
+        dst_port: kani::any(),
+        flags_fields_valid: kani::any(),
+        tcp_flags: kani::any(),
+        protocol_number: pn,
+        protocol_type: ProtocolTypes::from(pn),
+        tos: kani::any(),
+        src_as: kani::any(),
+        dst_as: kani::any(),
+        src_mask: kani::any(),
+        dst_mask: kani::any(),
+        flags_fields_invalid: kani::any(),
+        router_src: std::net::Ipv4Addr::from(kani::any::<u32>()),
+    }
+}
+
+/// C08 (second clause): parse(to_be_bytes(s)) == s for structures with count == records.
+#[kani::proof]
+#[kani::stub(core::fmt::write, no_fmt)]
+fn v5_struct_roundtrip_0() {
+    v5_struct_roundtrip_impl(0);
+}
+#[kani::proof]
+#[kani::stub(core::fmt::write, no_fmt)]
+fn v5_struct_roundtrip_1() {
+    v5_struct_roundtrip_impl(1);
+}
+#[kani::proof]
+#[kani::stub(core::fmt::write, no_fmt)]
+fn v5_struct_roundtrip_2() {
+    v5_struct_roundtrip_impl(2);
+}
+fn v5_struct_roundtrip_impl(count: u16) {
+    let mut recs = Vec::new();
+    if count >= 1 {
+        recs.push(any_v5_record());
+    }
+    if count >= 2 {
+        recs.push(any_v5_record());
+    }
+    let s = V5 {
+        header: v5::Header {
+            version: 5,
+            count,
+            sys_up_time: kani::any(),
+            unix_secs: kani::any(),
+            unix_nsecs: kani::any(),
+            flow_sequence: kani::any(),
+            engine_type: kani::any(),
+            engine_id: kani::any(),
+            sampling_interval: kani::any(),
+        },
+        flowsets: recs,
+    };
+    let out = s.to_be_bytes();
+    assert!(out.len() == 24 + 48 * count as usize);
+    assert!(out[0] == 0 && out[1] == 5);
+    match V5::parse(&out[2..]) {
+        Ok((rem, p)) => {
+            assert!(rem.is_empty());
+            assert!(p.header == s.header);
+            assert!(p.flowsets.len() == count as usize);
+            if count >= 1 {
+                assert!(p.flowsets[0] == s.flowsets[0]);
+            }
+            if count >= 2 {
+                assert!(p.flowsets[1] == s.flowsets[1]);
+            }
+            core::mem::forget(p);
+        }
+        Err(e) => {
+            assert!(false);
+            core::mem::forget(e);
+        }
+    }
+    core::mem::forget(out);
+    core::mem::forget(s);
+}
+
+#[kani::proof]
+#[kani::stub(core::fmt::write, no_fmt)]
+fn v7_struct_roundtrip_0() {
+    v7_struct_roundtrip_impl(0);
+}
+#[kani::proof]
+#[kani::stub(core::fmt::write, no_fmt)]
+fn v7_struct_roundtrip_1() {
+    v7_struct_roundtrip_impl(1);
+}
+#[kani::proof]
+#[kani::stub(core::fmt::write, no_fmt)]
+fn v7_struct_roundtrip_2() {
+    v7_struct_roundtrip_impl(2);
+}
+fn v7_struct_roundtrip_impl(count: u16) {
+    let mut recs = Vec::new();
+    if count >= 1 {
+        recs.push(any_v7_record());
+    }
+    if count >= 2 {
+        recs.push(any_v7_record());
+    }
+    let s = V7 {
+        header: v7::Header {
+            version: 7,
+            count,
+            sys_up_time: kani::any(),
+            unix_secs: kani::any(),
+            unix_nsecs: kani::any(),
+            flow_sequence: kani::any(),
+            reserved: kani::any(),
+        },
+        flowsets: recs,
+    };
+    let out = s.to_be_bytes();
+    assert!(out.len() == 24 + 52 * count as usize);
+    assert!(out[0] == 0 && out[1] == 7);
+    match V7::parse(&out[2..]) {
+        Ok((rem, p)) => {
+            assert!(rem.is_empty());
+            assert!(p.header == s.header);
+            assert!(p.flowsets.len() == count as usize);
+            if count >= 1 {
+                assert!(p.flowsets[0] == s.flowsets[0]);
+            }
+            if count >= 2 {
+                assert!(p.flowsets[1] == s.flowsets[1]);
+            }
+            core::mem::forget(p);
+        }
+        Err(e) => {
+            assert!(false);
+            core::mem::forget(e);
+        }
+    }
+    core::mem::forget(out);
+    core::mem::forget(s);
+}
+
+/// C13 (V5/V7): the common view copies version, sysUpTime and, per record and in order,
+/// addresses, ports, protocol number/name and first/last; MACs are absent.
+#[kani::proof]
+#[kani::stub(core::fmt::write, no_fmt)]
+fn v5_common_0() {
+    v5_common_impl(0);
+}
+#[kani::proof]
+#[kani::stub(core::fmt::write, no_fmt)]
+fn v5_common_1() {
+    v5_common_impl(1);
+}
+#[kani::proof]
+#[kani::stub(core::fmt::write, no_fmt)]
+fn v5_common_2() {
+    v5_common_impl(2);
+}
+fn v5_common_impl(count: u16) {
+    let mut recs = Vec::new();
+    if count >= 1 {
+        recs.push(any_v5_record());
+    }
+    if count >= 2 {
+        recs.push(any_v5_record());
+    }
+    let hdr = v5::Header {
+        version: 5,
+        count,
+        sys_up_time: kani::any(),
+        unix_secs: kani::any(),
+        unix_nsecs: kani::any(),
+        flow_sequence: kani::any(),
+        engine_type: kani::any(),
+        engine_id: kani::any(),
+        sampling_interval: kani::any(),
+    };
+    let pkt = NetflowPacket::V5(V5 { header: hdr, flowsets: recs });
+    match pkt.as_netflow_common() {
+        Ok(c) => {
+            assert!(c.version == 5);
+            assert!(c.timestamp == hdr.sys_up_time);
+            assert!(c.flowsets.len() == count as usize);
+            if let NetflowPacket::V5(s) = &pkt {
+                let i: usize = kani::any();
+                if i < count as usize {
+                    let (f, r) = (&c.flowsets[i], &s.flowsets[i]);
+                    assert!(f.src_addr == Some(std::net::IpAddr::V4(r.src_addr)));
+                    assert!(f.dst_addr == Some(std::net::IpAddr::V4(r.dst_addr)));
+                    assert!(f.src_port == Some(r.src_port));
+                    assert!(f.dst_port == Some(r.dst_port));
+                    assert!(f.protocol_number == Some(r.protocol_number));
+                    assert!(f.protocol_type == Some(r.protocol_type));
+                    assert!(f.first_seen == Some(r.first));
+                    assert!(f.last_seen == Some(r.last));
+                    assert!(f.src_mac.is_none() && f.dst_mac.is_none());
+                }
+            }
+            core::mem::forget(c);
+        }
+        Err(e) => {
+            assert!(false);
+            core::mem::forget(e);
+        }
+    }
+    core::mem::forget(pkt);
+}
+
+#[kani::proof]
+#[kani::stub(core::fmt::write, no_fmt)]
+fn v7_common_0() {
+    v7_common_impl(0);
+}
+#[kani::proof]
+#[kani::stub(core::fmt::write, no_fmt)]
+fn v7_common_1() {
+    v7_common_impl(1);
+}
+#[kani::proof]
+#[kani::stub(core::fmt::write, no_fmt)]
+fn v7_common_2() {
+    v7_common_impl(2);
+}
+fn v7_common_impl(count: u16) {
+    let mut recs = Vec::new();
+    if count >= 1 {
+        recs.push(any_v7_record());
+    }
+    if count >= 2 {
+        recs.push(any_v7_record());
+    }
+    let hdr = v7::Header {
+        version: 7,
+        count,
+        sys_up_time: kani::any(),
+        unix_secs: kani::any(),
+        unix_nsecs: kani::any(),
+        flow_sequence: kani::any(),
+        reserved: kani::any(),
+    };
+    let pkt = NetflowPacket::V7(V7 { header: hdr, flowsets: recs });
+    match pkt.as_netflow_common() {
+        Ok(c) => {
+            assert!(c.version == 7);
+            assert!(c.timestamp == hdr.sys_up_time);
+            assert!(c.flowsets.len() == count as usize);
+            if let NetflowPacket::V7(s) = &pkt {
+                let i: usize = kani::any();
+                if i < count as usize {
+                    let (f, r) = (&c.flowsets[i], &s.flowsets[i]);
+                    assert!(f.src_addr == Some(std::net::IpAddr::V4(r.src_addr)));
+                    assert!(f.dst_addr == Some(std::net::IpAddr::V4(r.dst_addr)));
+                    assert!(f.src_port == Some(r.src_port));
+                    assert!(f.dst_port == Some(r.dst_port));
+                    assert!(f.protocol_number == Some(r.protocol_number));
+                    assert!(f.protocol_type == Some(r.protocol_type));
+                    assert!(f.first_seen == Some(r.first));
+                    assert!(f.last_seen == Some(r.last));
+                    assert!(f.src_mac.is_none() && f.dst_mac.is_none());
+                }
+            }
+            core::mem::forget(c);
+        }
+        Err(e) => {
+            assert!(false);
+            core::mem::forget(e);
+        }
+    }
+    core::mem::forget(pkt);
+}
+
+/// C13: an Error element converts to an error.
+#[kani::proof]
+#[kani::stub(core::fmt::write, no_fmt)]
+fn error_common() {
+    use netflow_parser::{NetflowPacket, NetflowPacketError, NetflowParseError};
+    let v: u16 = kani::any();
+    let pkt = NetflowPacket::Error(NetflowPacketError {
+        error: NetflowParseError::UnallowedVersion(v),
+        remaining: Vec::new(),
+    });
+    let r = pkt.as_netflow_common();
+    assert!(r.is_err());
+    core::mem::forget(r);
+    core::mem::forget(pkt);
+}
